@@ -254,6 +254,10 @@ def g_scenario(c, n_sched=4):
              for _ in range(2)]
     schedules = [c.ints(24, 8) for _ in range(n_sched)]
     runs = [[0, c.pick(2), c.pick(2), c.pick(2)] for _ in range(2)]
+    if c.chance(64):
+        # a quarter of the scenarios: generator sources whose finalisation is asynchronous (their `finally`
+        # awaits a gate), so that payloads are produced and the stream ends while sources are still closing
+        plans = [p + [0, 128] for p in plans]
     return {"model": dict(m), "doc": doc, "varsets": varsets, "oracles": oracles, "plans": plans,
             "schedules": schedules, "runs": runs, "schema_mode": c.choose(["prog", "prog-out-names"]),
             "incremental": True, "disable_propagation": disable, "early_flip": c.pick(2),
